@@ -1304,6 +1304,7 @@ pub async fn run_path(
         let act = step["act"].as_str().unwrap_or("");
         let args = &step["args"];
         let mut projections = Vec::new();
+        let mut diverged = false;
         for dev in devices.iter_mut() {
             let res = dev.exec(act, args).await?;
             out.steps += 1;
@@ -1375,8 +1376,9 @@ pub async fn run_path(
                         crate::archive_world::c19_check(dev, scratch, out, &mut v).await?;
                     }
                     if !problems.is_empty() && v.is_empty() {
-                        out.count("aborted_paths_state_divergence", 1);
-                        failed = true;
+                        // a divergence from the model on one backend only is a
+                        // disagreement of the backends (decided below)
+                        diverged = true;
                     }
                     v
                 }
@@ -1412,6 +1414,42 @@ pub async fn run_path(
                 failed = true;
             }
             projections.push(st);
+        }
+        // event-for-event parity of the backends (C19): the same history gives the
+        // same sequence of event kinds in the account log and in every folder log
+        if prop == "C19" && !failed && devices.len() == 2 {
+            let mut shapes: Vec<BTreeMap<String, Vec<String>>> = Vec::new();
+            for dev in devices.iter() {
+                let mut m = BTreeMap::new();
+                m.insert("account".to_string(), dev.account_log_kinds().await.unwrap_or_default());
+                for (f, id) in &dev.folders {
+                    m.insert(format!("folder {f}"), dev.log_kinds(id).await.unwrap_or_default());
+                }
+                shapes.push(m);
+            }
+            if shapes[0] != shapes[1] {
+                let which: Vec<String> = shapes[0]
+                    .keys()
+                    .chain(shapes[1].keys())
+                    .filter(|k| shapes[0].get(*k) != shapes[1].get(*k))
+                    .cloned()
+                    .collect::<std::collections::BTreeSet<_>>()
+                    .into_iter()
+                    .collect();
+                let k0 = &which[0];
+                out.violation(
+                    format!(
+                        "the event logs of the two backends differ after step {n} {act} {args} in {which:?}: {} has {:?} on {}, {:?} on {}",
+                        k0, shapes[0].get(k0), devices[0].label, shapes[1].get(k0), devices[1].label
+                    ),
+                    json!({"path": path, "step": n}),
+                );
+                failed = true;
+            }
+        }
+        if diverged && !failed && !(projections.len() == 2 && projections[0] != projections[1]) {
+            out.count("aborted_paths_state_divergence", 1);
+            failed = true;
         }
         if !failed && projections.len() == 2 && projections[0] != projections[1] {
             out.violation(
